@@ -23,7 +23,7 @@ mod verif_rrdp_w {
 
     // ---------------------------------------------------------------- deterministic helpers
     /// splitmix64 over an INPUT seed: bulk material (URIs, object bytes) as a pure function of the inputs
-    struct Gen(u64);
+    struct Gen(u64, usize);      // state; length of an extra path segment put into every URI
     impl Gen {
         fn next(&mut self) -> u64 {
             self.0 = self.0.wrapping_add(0x9E3779B97F4A7C15);
@@ -46,12 +46,14 @@ mod verif_rrdp_w {
     fn rsync_text(g: &mut Gen) -> Vec<u8> {
         let mut v = b"rsync://".to_vec();
         v.extend(seg(g, 6)); v.push(b'/'); v.extend(seg(g, 4));
+        if g.1 > 0 { v.push(b'/'); v.resize(v.len() + g.1, b'b'); }
         for _ in 0..1 + g.below(3) { v.push(b'/'); v.extend(seg(g, 6)); }
         v
     }
     fn https_text(g: &mut Gen) -> Vec<u8> {
         let mut v = b"https://".to_vec();
         v.extend(seg(g, 6));
+        if g.1 > 0 { v.push(b'/'); v.resize(v.len() + g.1, b'a'); }
         for _ in 0..g.below(4) { v.push(b'/'); v.extend(seg(g, 6)); }
         v
     }
@@ -177,8 +179,10 @@ mod verif_rrdp_w {
 
     //@harness rrdp_w_roundtrip W fn=NotificationFile::{write_xml,parse},Snapshot::{write_xml,parse},Delta::{write_xml,parse},ProcessSnapshot::process,ProcessDelta::process,ObjectReader::process,AttrValue::ascii_into,TextEscape::write_escaped,base64::Xml::{encode_writer,decode_reader} n=4000 timeout=600
     verif_search!{ rrdp_w_roundtrip; |kind: u8, session: u128, serial: u64, nsel: u8, n: u16, seed: u64, cap: u8, dserial: u64| {
-        let mut g = Gen(seed);
-        let count = if nsel % 8 == 0 { (n % 300) as usize } else { (n % 6) as usize };
+        let mut g = Gen(seed, 0);
+        let mut count = if nsel % 8 == 0 { (n % 300) as usize } else { (n % 6) as usize };
+        // now and then a file well above 1 MB made of many small elements (4 KB URIs)
+        if nsel == 1 && n % 4 == 0 { g.1 = 4000; count = 280 + (n % 40) as usize; }
         let session = Uuid::from_u128(session);
         let mut xml = Vec::new();
         match kind % 3 {
@@ -274,9 +278,9 @@ mod verif_rrdp_w {
             _ => if p < doc.len() { doc[p] ^= 1 << (arg % 8) },
         }
     }
-    //@harness rrdp_w_mutate W fn=NotificationFile::{parse,write_xml},Snapshot::{parse,write_xml},Delta::{parse,write_xml},Reader::{start,end},Content::{take_opt_element,take_end,take_opt_final_text},Element::attributes,Text::base64_decode n=6000 timeout=600
+    //@harness rrdp_w_mutate W fn=NotificationFile::{parse,write_xml},Snapshot::{parse,write_xml},Delta::{parse,write_xml},Reader::{start,end},Content::{take_opt_element,take_end,take_opt_final_text},Element::attributes,Text::base64_decode n=30000 timeout=600
     verif_search!{ rrdp_w_mutate; |kind: u8, seed: u64, n: u8, cap: u8, nm: u8, op0: u8, pos0: u16, arg0: u8, op1: u8, pos1: u16, arg1: u8, op2: u8, pos2: u16, arg2: u8| {
-        let mut g = Gen(seed);
+        let mut g = Gen(seed, 0);
         let (session, serial, count) = (Uuid::from_u128(g.next() as u128), g.next() % 100, (n % 4) as usize);
         let mut xml = Vec::new();
         match kind % 3 {
@@ -312,8 +316,8 @@ mod verif_rrdp_w {
     struct Hostile { prefix: Vec<u8>, block: Vec<u8>, cap: usize, pos: usize, pulled: Rc<Cell<usize>>, eofs: u32 }
     impl Hostile {
         fn new(prefix: Vec<u8>, unit: &[u8], cap: usize, pulled: Rc<Cell<usize>>) -> Self {
-            let mut block = Vec::new();
-            for _ in 0..65536 / unit.len() + 1 { block.extend_from_slice(unit) }
+            let mut block = unit.to_vec();      // a whole number of units, at least 64 KB
+            while block.len() < 65536 { block.extend_from_within(..) }
             Hostile { prefix, block, cap, pos: 0, pulled, eofs: 0 }
         }
     }
@@ -445,9 +449,9 @@ mod verif_rrdp_w {
         t
     }
 
-    //@harness rrdp_w_bounded_xml W fn=Reader::{reset_and_limit,start_with_limit,end},Content::{take_opt_element_with_limit,take_element_with_limit,take_text_with_limit,take_end,take_opt_final_text,skip_opt_text},BufReadCounter::{fill_buf,consume} n=12000 timeout=600
+    //@harness rrdp_w_bounded_xml W fn=Reader::{reset_and_limit,start_with_limit,end},Content::{take_opt_element_with_limit,take_element_with_limit,take_text_with_limit,take_end,take_opt_final_text,skip_opt_text},BufReadCounter::{fill_buf,consume} n=40000 timeout=600
     verif_search!{ rrdp_w_bounded_xml; |seed: u64, mode: u8, nchild: u8, style: u8, cutmode: u8, cutsel: u16, unit: u8, lim: u16, bufsel: u8, short: u8| {
-        let mut g = Gen(seed);
+        let mut g = Gen(seed, 0);
         let doc = walk_doc(&mut g, mode, (nchild % 4) as usize, style);
         let cut = pick_cut(&doc, doc.len(), cutmode, cutsel);
         let limit = 1 + (lim % 3000) as usize;
@@ -465,9 +469,9 @@ mod verif_rrdp_w {
     const HEADER_LIMIT: usize = 1_000_000;      // MAX_HEADER_SIZE of the property text ("configured limits"), written down independently
     const FILE_LIMIT: usize = 100_000_000;      // MAX_FILE_SIZE
 
-    //@harness rrdp_w_bounded_hdr W fn=NotificationFile::parse,Snapshot::parse,Delta::parse,ProcessSnapshot::process,ProcessDelta::process,Reader::{start_with_limit,end},Content::{take_opt_element_with_limit,take_end} n=500 timeout=900
+    //@harness rrdp_w_bounded_hdr W fn=NotificationFile::parse,Snapshot::parse,Delta::parse,ProcessSnapshot::process,ProcessDelta::process,Reader::{start_with_limit,end},Content::{take_opt_element_with_limit,take_end} n=400 timeout=900
     verif_search!{ rrdp_w_bounded_hdr; |kind: u8, seed: u64, nchild: u8, style: u8, cutmode: u8, cutsel: u16, unit: u8, bufsel: u8| {
-        let mut g = Gen(seed);
+        let mut g = Gen(seed, 0);
         // notification files: the 1 MB limit holds everywhere; snapshot / delta files: up to the end of the root start tag
         let kind = if kind % 4 == 3 { 0 } else { kind % 4 };
         let (doc, hdr_end) = styled(kind, &mut g, 1 + (nchild % 3) as usize, style);
@@ -479,12 +483,25 @@ mod verif_rrdp_w {
         assert!(pulled <= cut + HEADER_LIMIT + 2 * buf + 64, "reading stops within the 1 MB header limit plus one buffer beyond the start of the offending element");
     }}
 
-    //@harness rrdp_w_bounded_file W fn=Snapshot::parse,Delta::parse,ProcessSnapshot::process,ProcessDelta::process,ObjectReader::process,Content::{take_opt_element_with_limit,take_opt_final_text,take_end} n=30 timeout=900
+    //@harness rrdp_w_bounded_file W fn=Snapshot::parse,Delta::parse,ProcessSnapshot::process,ProcessDelta::process,ObjectReader::process,Content::{take_opt_element_with_limit,take_opt_final_text,take_end},NotificationFile::{parse,write_xml} n=24 timeout=900
     verif_search!{ rrdp_w_bounded_file; |what: u8, seed: u64, style: u8, cutsel: u16, unit: u8| {
-        let mut g = Gen(seed);
+        let mut g = Gen(seed, 0);
+        if what % 4 == 2 {
+            // a notification file larger than the per-element limit (many deltas) still parses back
+            g.1 = 4000;
+            let v = mk_notification(&mut g, Uuid::from_u128(seed as u128), seed, 300 + (cutsel as usize) % 500, seed);
+            let mut xml = Vec::new();
+            v.write_xml(&mut xml).unwrap();
+            assume(xml.len() > HEADER_LIMIT + 100_000);
+            let r = NotificationFile::parse(io::BufReader::with_capacity(8192, &xml[..]));
+            assert!(r.is_ok() && same_notification(&r.unwrap(), &v), "a written notification file larger than 1 MB parses back to an equal value");
+            return
+        }
         if what % 4 == 0 {
             // a large file written by the library (one object above the header limit) still parses back
-            let big = PublishElement::new(rsync(&mut g), Bytes::from(g.bytes(HEADER_LIMIT * 3 / 4 + (cutsel as usize) * 8)));
+            let (blk, mut data) = (g.bytes(1021), Vec::new());
+            while data.len() < HEADER_LIMIT * 3 / 4 + (cutsel as usize) * 8 { data.extend_from_slice(&blk) }
+            let big = PublishElement::new(rsync(&mut g), Bytes::from(data));
             let small = PublishElement::new(rsync(&mut g), object(&mut g));
             let v = Snapshot::new(Uuid::from_u128(seed as u128), seed, vec![small.clone(), big, small]);
             let mut xml = Vec::new();
@@ -494,11 +511,12 @@ mod verif_rrdp_w {
             return
         }
         // snapshot / delta bodies: a run behind the root start tag is bounded by the 100 MB limit
-        let kind = 1 + what % 2;
+        let kind = 1 + (what / 4) % 2;
         let (doc, hdr_end) = styled(kind, &mut g, 2, style);
         let gts: Vec<usize> = doc.iter().enumerate().filter(|(i, c)| **c == b'>' && *i >= hdr_end).map(|(i, _)| i + 1).collect();
         let cut = if cutsel % 3 == 0 { hdr_end + 1 + (cutsel as usize) % (doc.len() - hdr_end) } else { gts[(cutsel as usize) % gts.len()] };
-        let unit = [&b" "[..], b"\n", b"A", b"<!-- c -->", b"a=\"b\" ", b"\t \r\n"][(unit as usize) % 6];
+        let long_comment = [&b"<!--"[..], &[b'c'; 4000][..], b"-->"].concat();      // (short comments: 10 M events, too slow)
+        let unit = [&b" "[..], b"\n", b"A", &long_comment[..], b"a=\"b\" ", b"\t \r\n"][(unit as usize) % 6];
         let buf = 65536;
         let (pulled, _) = run_hostile(kind, doc[..cut].to_vec(), unit, FILE_LIMIT + 4 * buf + 1_000_000, buf);
         assert!(pulled <= cut + FILE_LIMIT + 2 * buf + 64, "reading stops within the 100 MB file limit plus one buffer beyond the start of the offending element");
